@@ -2,10 +2,14 @@
 which checks alarmed / had no verdict when each arrived (checks_first) and what they say now (checks)."""
 import glob, json, os
 
+import sys
+ROUND = sys.argv[1] if len(sys.argv) > 1 else ""      # "12" -> r1/r2 only, "34" -> r3/r4 only, "" -> all
 rows = []
 tot_first = {0: 0, 1: 0, 2: 0}
 tot_now = {0: 0, 1: 0, 2: 0}
 for d in sorted(glob.glob("/verif/benign/*")):
+    if ROUND and d[-1] not in ROUND:
+        continue
     mp = os.path.join(d, "meta.json")
     if not os.path.isfile(mp):
         continue
